@@ -371,10 +371,19 @@ func c02validate(res *vlib.Result, rec *krecord) {
 			var got []string
 			identifiable := true
 			for _, it := range items {
-				if it.Key == "" {
+				key := it.Key
+				if key == "" && it.Gen != 0 {
+					// full object not kept: identify the item by the (globally unique) generation in its filterResult
+					for k := range vc.History {
+						if _, _, ok := vc.StateByGen(k, it.Gen); ok {
+							key = k
+						}
+					}
+				}
+				if key == "" {
 					identifiable = false
 				}
-				got = append(got, fmt.Sprintf("%s@%d", it.Key, it.Gen))
+				got = append(got, fmt.Sprintf("%s@%d", key, it.Gen))
 			}
 			sort.Strings(got)
 			want := sortedIDs(truth)
@@ -382,8 +391,14 @@ func c02validate(res *vlib.Result, rec *krecord) {
 			for _, a := range vlib.SortedKeys(rec.Armed) {
 				cls += "+" + a
 			}
-			if identifiable && c02onlyGhosts(rec, got, want) {
-				cls = "ghost-deleted-between-AddMonitor-list-and-informer-start"
+			const ghost = "ghost-deleted-between-AddMonitor-list-and-informer-start"
+			if identifiable && c02onlyGhosts(rec, &b, got, want) {
+				cls = ghost
+			}
+			if !identifiable && len(items) > len(truth) && len(items)-len(truth) <= c02ghostCandidates(rec, &b) {
+				// items carry neither object nor generation: only the size can be compared; the surplus is
+				// explained by objects that left the binding's scope between AddMonitor's list and the informer's own
+				cls = ghost
 			}
 			if identifiable {
 				if strings.Join(got, ",") != strings.Join(want, ",") {
@@ -469,7 +484,7 @@ func TestC02Linearizable(t *testing.T) {
 	vlib.RunCases(t, "C02", "linearizable", n, func(c *vlib.Case) vlib.Result {
 		var res vlib.Result
 		rng := c.Rng
-		kubeeventsmanager.DefaultFactoryStore.Reset()
+		kubeeventsmanager.DefaultFactoryStore = kubeeventsmanager.NewFactoryStore()
 		vc := vlib.NewVCluster()
 		ctx, cancel := context.WithCancel(context.Background())
 		defer cancel()
@@ -583,9 +598,44 @@ func TestC02Linearizable(t *testing.T) {
 	})
 }
 
-// c02onlyGhosts: the snapshot holds everything the cluster holds plus objects whose
-// deletion happened while the operator was parked between AddMonitor and StartMonitor.
-func c02onlyGhosts(rec *krecord, got, want []string) bool {
+// c02leftScope: the state following generation gen of key was written while the operator was parked between
+// AddMonitor and StartMonitor and took the object out of the binding's scope (deleted, or relabelled so that
+// the object-level selectors no longer match).
+func c02leftScope(rec *krecord, b *kbind, key string, gen int) bool {
+	_, idx, ok := rec.VC.StateByGen(key, gen)
+	h := rec.VC.History[key]
+	if !ok || idx+1 >= len(h) || rec.PhaseOf[h[idx+1].Gen] != "between-AddMonitor-and-StartMonitor" {
+		return false
+	}
+	if h[idx+1].Deleted {
+		return true
+	}
+	sel := b.Sel
+	sel.NsLabels = nil
+	parts := strings.SplitN(key, "/", 2)
+	return !rec.VC.Matches(sel, parts[0], parts[1], h[idx+1])
+}
+
+// c02ghostCandidates counts the objects that matched the binding and left its scope in the between phase.
+func c02ghostCandidates(rec *krecord, b *kbind) int {
+	n := 0
+	sel := b.Sel
+	sel.NsLabels = nil
+	for key, h := range rec.VC.History {
+		parts := strings.SplitN(key, "/", 2)
+		for i := 0; i+1 < len(h); i++ {
+			if !h[i].Deleted && rec.VC.Matches(sel, parts[0], parts[1], h[i]) && c02leftScope(rec, b, key, h[i].Gen) {
+				n++
+				break
+			}
+		}
+	}
+	return n
+}
+
+// c02onlyGhosts: the snapshot holds everything the cluster holds plus objects that left the binding's
+// scope (deleted / relabelled) while the operator was parked between AddMonitor and StartMonitor.
+func c02onlyGhosts(rec *krecord, b *kbind, got, want []string) bool {
 	w := map[string]bool{}
 	for _, x := range want {
 		w[x] = true
@@ -602,9 +652,7 @@ func c02onlyGhosts(rec *krecord, got, want []string) bool {
 		key := x[:at]
 		var gen int
 		fmt.Sscanf(x[at+1:], "%d", &gen)
-		_, idx, ok := rec.VC.StateByGen(key, gen)
-		h := rec.VC.History[key]
-		if !ok || idx+1 >= len(h) || !h[idx+1].Deleted || rec.PhaseOf[h[idx+1].Gen] != "between-AddMonitor-and-StartMonitor" {
+		if !c02leftScope(rec, b, key, gen) {
 			return false
 		}
 	}
